@@ -15,6 +15,62 @@ type step struct {
 	Cond  string      `json:"cond,omitempty"`
 	Must  bool        `json:"must,omitempty"` // await: by then the answer was sent, the call has to return
 	Inv   *inviteSpec `json:"invite,omitempty"`
+	// presences from the room: the <item/> attributes and status codes
+	Aff   string `json:"affiliation,omitempty"`
+	Role  string `json:"role,omitempty"`
+	Codes []int  `json:"status,omitempty"`
+}
+
+var (
+	affiliations = []string{"owner", "admin", "member", "none", "outcast"}
+	roles        = []string{"moderator", "participant", "visitor", "none"}
+	// how a room takes an occupant out: ban, kick, affiliation change,
+	// members-only, shutdown
+	removals = []int{301, 307, 321, 322, 332}
+)
+
+// dress gives a presence step its <item/> attributes and status codes: every
+// affiliation × role combination occurs on joins, changes and departures; the
+// occupant model follows the presence type whatever they are.
+func dress(r *rand.Rand, st *step) {
+	switch st.Op {
+	case "self", "self-unsolicited", "self-again", "other", "foreign":
+		st.Aff, st.Role = affiliations[r.Intn(len(affiliations))], roles[r.Intn(len(roles))]
+		if r.Intn(2) == 0 {
+			// the plausible ones more often
+			st.Aff, st.Role = affiliations[r.Intn(4)], roles[r.Intn(3)]
+		}
+		if st.Op != "other" {
+			st.Codes = []int{110}
+			if r.Intn(4) == 0 {
+				st.Codes = append(st.Codes, []int{100, 170, 201, 210}[r.Intn(4)])
+			}
+		}
+	case "kick", "other-removed":
+		code := removals[r.Intn(len(removals))]
+		st.Aff, st.Role = affiliations[r.Intn(len(affiliations))], "none"
+		switch code {
+		case 301:
+			st.Aff = "outcast"
+		case 321, 322:
+			st.Aff = "none"
+		}
+		if r.Intn(6) == 0 {
+			st.Role = roles[r.Intn(len(roles))]
+		}
+		st.Codes = []int{code}
+		if st.Op == "kick" {
+			st.Codes = append(st.Codes, 110)
+		}
+	case "unavail", "other-leaves", "foreign-unavailable":
+		st.Aff, st.Role = affiliations[r.Intn(len(affiliations))], roles[r.Intn(len(roles))]
+		if r.Intn(2) == 0 {
+			st.Role = "none"
+		}
+		if st.Op != "other-leaves" {
+			st.Codes = []int{110}
+		}
+	}
 }
 
 type muCase struct {
@@ -51,7 +107,11 @@ type story struct {
 	noises *int
 }
 
-func (s *story) add(st step) { st.Room = s.room; s.steps = append(s.steps, st) }
+func (s *story) add(st step) {
+	st.Room = s.room
+	dress(s.r, &st)
+	s.steps = append(s.steps, st)
+}
 
 func (s *story) launch(op string) string {
 	s.ncall++
@@ -179,6 +239,10 @@ func (s *story) inRoom() (stillIn bool) {
 		case 0:
 			s.add(step{Op: "other"})
 		case 1:
+			if s.r.Intn(2) == 0 {
+				s.add(step{Op: "other-removed"}) // somebody else is banned, kicked, …
+				break
+			}
 			s.add(step{Op: "other-leaves"})
 		case 2:
 			s.add(step{Op: "self-again"}) // e.g. a role change: presence for our own address, no call pending
@@ -304,9 +368,13 @@ func genCase(r *rand.Rand) *muCase {
 				mc.Steps = append(mc.Steps, step{Op: "foreign-malformed", N: r.Intn(2 * len(malformedPayloads))}, step{Op: "barrier"})
 				break
 			}
-			mc.Steps = append(mc.Steps, step{Op: "foreign"})
+			st := step{Op: "foreign"}
+			dress(r, &st)
+			mc.Steps = append(mc.Steps, st)
 		case 3:
-			mc.Steps = append(mc.Steps, step{Op: "foreign-unavailable"})
+			st := step{Op: "foreign-unavailable"}
+			dress(r, &st)
+			mc.Steps = append(mc.Steps, st)
 		case 4:
 			mc.Steps = append(mc.Steps, step{Op: "unrelated", N: r.Intn(len(unrelated))})
 		default:
